@@ -39,6 +39,10 @@ SPEC = {"amp": {1: True, 2: True, 3: True},
         "theta": {1: False, 2: False, 3: True}}
 
 MUTANTS = [
+    ("psf sanity test rewritten so that nan is excluded",
+     "AegeanTools/cluster.py",
+     "            if (src.psf_a <= 0) or (src.psf_b <= 0):",
+     "            if not (src.psf_a > 0 and src.psf_b > 0):", "C05-R10"),
     ("stage > 2 for position", "AegeanTools/source_finder.py",
      "                    max=source_x + sx / 2.0,\n                    "
      "vary=stage >= 2,", "                    max=source_x + sx / 2.0,\n"
